@@ -385,3 +385,29 @@ def result_type(ctx, repo):
     ctx.ob("RT", ok=ok, distinct="count")
     if not ok:
         ctx.violation("RT", "count-type", fl.loc(an), "count aggregates are no longer annotated int")
+    return_annotation_sites(ctx, repo, "RT")
+
+
+def return_annotation_sites(ctx, repo, rid):
+    """every branch of _annotations_for_aggregation that knows the source type sets the aggregate's type through
+    the result-type rule (sibling agreement of the branches: rule-valued source, input-valued source)"""
+    fl = repo.module("functions_loader.py")
+    an = find_function(fl, "_annotations_for_aggregation", "primary anchor")
+    la = {}
+    for n in ast.walk(an):
+        if isinstance(n, ast.Assign) and len(n.targets) == 1 and isinstance(n.targets[0], ast.Name):
+            la[n.targets[0].id] = n.value
+    sites = [n for n in ast.walk(an) if isinstance(n, ast.Assign) and len(n.targets) == 1 and isinstance(n.targets[0], ast.Subscript)
+             and isinstance(n.targets[0].slice, ast.Constant) and n.targets[0].slice.value == "return"]
+    if len(sites) < 2:
+        raise AnalysisError("_annotations_for_aggregation: assignments of the 'return' annotation not found; RT needs a re-read")
+    for st in sites:
+        v = st.value
+        if isinstance(v, ast.Name) and v.id in la:
+            v = la[v.id]
+        through_rule = isinstance(v, ast.Call) and isinstance(v.func, ast.Name) and v.func.id == "_select_return_type"
+        is_count = isinstance(v, ast.Name) and v.id == "int"
+        ok = through_rule or is_count
+        ctx.ob(rid, ok=ok, distinct=("site", st.lineno))
+        if not ok:
+            ctx.violation(rid, f"annotation-site|{ast.unparse(st.value)[:60]}", fl.loc(st) + " _annotations_for_aggregation", f"`{ast.unparse(st)[:90]}` types the aggregate without the result-type rule: a sum over a boolean source is declared bool (a supplied count column is then rejected or cut to True/False), any/all over integers int")
